@@ -63,10 +63,15 @@ def r1(ctx):
     link_sites, plain_sites = [], []
     for node, gs, is_value in sites:
         pos, neg, lets = atoms(gs, node, is_value)
-        if any(p_.endswith("is_symlink()") for p_ in pos):
-            link_sites.append((node, pos, neg, lets))
-        elif any(n_.endswith("is_symlink()") for n_ in neg):
-            plain_sites.append((node, pos, neg, lets))
+        # (which branch a site belongs to may also be established by a guard clause of an extracted helper:
+        # `if !file_type.is_symlink() { return file_type.is_dir(); }` - only this one atom is taken from the exits)
+        xpos, xneg = guard_atoms([g for g in with_exits(gs) if g[0] in ("exit", "exitmatch")])
+        xpos = [render(peel(a_, methods=False)) for a_ in xpos if render(peel(a_, methods=False)).endswith("is_symlink()")]
+        xneg = [render(peel(a_, methods=False)) for a_ in xneg if render(peel(a_, methods=False)).endswith("is_symlink()")]
+        if any(p_.endswith("is_symlink()") for p_ in pos + xpos):
+            link_sites.append((node, pos + xpos, neg, lets))
+        elif any(n_.endswith("is_symlink()") for n_ in neg + xneg):
+            plain_sites.append((node, pos, neg + xneg, lets))
     if not link_sites:
         ctx.violation("anchor/symlink-branch", VISIT_DIR, "the symlink branch of the descent decision was not found")
         raise Abort()
